@@ -443,9 +443,10 @@ class Ref:
         except StepError as e:
             swallow = self.truth(st.get('swallow', False))
             if not getattr(e, 'recorded', False):
+                custom = {}
                 if st.get('onError'):
-                    self.fmt(st['onError'])       # the payload is formatted when recording
-                self.errors.append((e.name, e.msg, st['module'], swallow))
+                    custom = self.fmt(st['onError'])       # the payload is formatted when recording
+                self.errors.append((e.name, e.msg, st['module'], swallow, custom))
                 e.recorded = True
             if not swallow:
                 raise
